@@ -22,6 +22,7 @@ func init() {
 			"(G) guarded-by: every field that is written after start-up has one lock held at all of its accesses (write mode at writes), using intra-procedural must-locksets plus must-entry locksets propagated over the VTA call graph; (X) re-entrancy: no lock is acquired while the same lock is held or may be held on entry through some call chain — including read-after-read on an RWMutex, which deadlocks as soon as a writer queues in between; " +
 			"(O) order: the lock-order graph built from all acquisitions (local and may-entry locksets) has no cycle; (L) no leak: a slice/map kept under a lock is not handed out of the critical section un-cloned by a function that takes the lock itself; (A) a field accessed through sync/atomic functions is accessed plainly (also as part of a whole-struct copy) only where a common lock orders the two. " +
 			"(S) no panic from a stale position: the refresh copies metadata back into the live list array by looking the list up again under the lock, never through an index remembered from before the unlocked download (the C15-D3 rule). " +
+			"(L, cont.) ClientRuntime hands the request path nil or a clone of the stored runtime client, never the stored object. " +
 			"Not decided: absence of all data races (instances of one type are conflated, third-party internals, happens-before through channels and sync.Once are not modelled), panics in general, well-formedness and latency of responses.",
 		RuleText:    "Must-lockset dataflow per function, must/may entry locksets by fixpoint over the VTA call graph, field accesses from SSA FieldAddr users.",
 		Assumptions: []string{"lock and field identity are type-based", "functions reachable only from start-up (table of init-phase callers) run before any concurrency", "VTA resolves the func-valued fields and interfaces on the DNS path"},
@@ -53,6 +54,37 @@ var c05InitCallers = map[string]string{
 
 func runC05(c *Ctx) {
 	p, r := c.P, c.R
+	// runtime clients live in the storage's index and are rewritten there under the storage lock (DHCP, ARP, rDNS,
+	// WHOIS updates); what ClientRuntime hands to the request path, which reads it without that lock, is a copy
+	if cr := p.Fn("(*client.Storage).ClientRuntime"); cr != nil {
+		var notCopies []string
+		nRet := 0
+		for _, b := range cr.Blocks {
+			if len(b.Instrs) == 0 || b == cr.Recover {
+				continue
+			}
+			ret, ok := core.AsReturn(b.Instrs[len(b.Instrs)-1])
+			if !ok || len(ret.Results) != 1 {
+				continue
+			}
+			nRet++
+			for _, leaf := range core.FlattenPhi(core.ResolveLocalLoad(core.Res(ret, 0))) {
+				if core.IsNilConst(leaf) || core.IsCallResult(leaf, -1, "(*client.Runtime).clone") {
+					continue
+				}
+				if _, fresh := leaf.(*ssa.Alloc); fresh {
+					continue // an object made here (the clone expanded in place)
+				}
+				notCopies = append(notCopies, p.InstrPos(ret)+": "+leaf.String())
+			}
+		}
+		sort.Strings(notCopies)
+		r.Check(nRet > 0 && len(notCopies) == 0, "C05-L", "runtime-client-handed-out-as-a-copy", p.FnPos(cr),
+			"ClientRuntime returns nil or a clone of the stored runtime client",
+			"ClientRuntime can return the runtime client object that is stored in the index: the request path reads it without the storage lock while DHCP/ARP/rDNS/WHOIS updates rewrite it under the lock (data race, torn reads)", notCopies...)
+	} else {
+		r.Undecided("C05-L", "ClientRuntime", "-", "anchor not found")
+	}
 	// no panic: positions in the live list array are never carried across the unlocked download
 	refreshMetadata(c, "C05-S")
 	scope := func(fn *ssa.Function) bool { return c05Pkgs[core.PkgOf(fn)] }
